@@ -29,6 +29,13 @@ type Case struct {
 	// Resize, when set on a resizable spec: the dataset is created with D.Dims, resized to this shape and then written
 	// completely at the new shape (what reads back must be what was written, whatever shape the dataset had before)
 	Resize []uint64 `json:"resize,omitempty"`
+	// Rewrites: the dataset is written completely this many more times (other values) through the same handle; what reads
+	// back is what was written last
+	Rewrites int `json:"rewrites,omitempty"`
+	// FitDelta, when Fit is set: after everything is written, the object created just before the dataset's neighbour gets
+	// attributes that fill its object header to 255+FitDelta message bytes (growth of a neighbouring header in place)
+	Fit      bool `json:"fit,omitempty"`
+	FitDelta int  `json:"fit_delta,omitempty"`
 }
 
 var extents = []uint64{1, 2, 3, 4, 5, 7, 8, 11, 13, 16, 17, 31, 32, 64}
@@ -123,6 +130,10 @@ func gen(t *rapid.T) Case {
 		Raw:     rapid.IntRange(0, 5).Draw(t, "raw") == 0,
 	}
 	c.D = genSpec(t, vt.N(4096, 100000))
+	c.Rewrites = rapid.SampledFrom([]int{0, 0, 0, 1, 2}).Draw(t, "rewrites")
+	if c.Before > 0 && rapid.IntRange(0, 3).Draw(t, "fit") == 0 {
+		c.Fit, c.FitDelta = true, rapid.IntRange(-9, 3).Draw(t, "fitDelta")
+	}
 	if k, _ := c.D.Base(); c.D.Chunk != nil && (k == "num" || k == "str" || k == "arr") && rapid.IntRange(0, 3).Draw(t, "resizable") == 0 {
 		for range c.D.Dims {
 			c.D.MaxDims = append(c.D.MaxDims, hdf5.Unlimited)
@@ -144,6 +155,12 @@ func classify(c Case) (bool, []string) {
 	}
 	if c.Resize != nil {
 		labels = append(labels, "resized_before_write")
+	}
+	if c.Rewrites > 0 {
+		labels = append(labels, "written_more_than_once")
+	}
+	if c.Fit {
+		labels = append(labels, "neighbour_header_filled")
 	}
 	partial := false
 	nt := len(c.D.Dims) >= 2 || c.SB != 2 || c.Mode == hist.ModeMixed
@@ -208,14 +225,26 @@ func run(c Case) vt.Verdict {
 		w.K = "writeraw"
 	}
 	ops = append(ops, w)
+	for k := 0; k < c.Rewrites; k++ {
+		w2 := w
+		w2.Seed = c.Seed + 7919*(k+1)
+		ops = append(ops, w2)
+	}
 	for i := 0; i < c.After; i++ {
 		p := fmt.Sprintf("/a%d", i)
 		ops = append(ops, hist.Op{K: "dataset", Path: p, D: &small}, hist.Op{K: "write", Path: p, Seed: 100 + i, Mode: hist.ModeSeq})
+	}
+	if c.Fit && c.Before > 0 {
+		// the header of the dataset allocated right before the target grows in place up to (and around) its capacity
+		ops = append(ops, hist.Op{K: "attrfit", Path: fmt.Sprintf("/b%d", c.Before-1), Name: "fill", Delta: c.FitDelta, Seed: c.Seed})
 	}
 	for i, op := range ops {
 		st := ex.Apply(op)
 		if st.Broken != "" {
 			return vt.Bad("op %d %s %s: %s", i, op.K, op.Path, st.Broken)
+		}
+		if op.K == "attrfit" {
+			continue // refused beyond the capacity, accepted below it: hist checks which; either way the data must be intact
 		}
 		if st.Err != "" {
 			return vt.Bad("op %d %s %s of a supported configuration was rejected: %s (spec %+v)", i, op.K, op.Path, st.Err, c.D)
